@@ -122,4 +122,18 @@ theorem smatchP_iff : ∀ (toks : List STok) (s : Str) (vs : List Str) (rest : S
           refine ⟨v, p' ++ rest, (mem_splits _ _ _).2 ⟨g v (by simp), by simp [h2]⟩, vs', rest, ?_, rfl⟩
           exact (ih _ _ _).2 ⟨fun x hx => g x (by simp [hx]), p', h1, rfl⟩
 
+theorem mem_tagFrom {mk : Nat → SrvRef} : ∀ {l : List Server} {j : Nat} {x : SrvRef × Server},
+    x ∈ tagFrom mk j l → ∃ i, l[i]? = some x.2 ∧ x.1 = mk (j + i) := by
+  intro l
+  induction l with
+  | nil => intro j x h; simp [tagFrom] at h
+  | cons s rest ih =>
+    intro j x h
+    simp only [tagFrom, List.mem_cons] at h
+    rcases h with rfl | h
+    · exact ⟨0, by simp, rfl⟩
+    · obtain ⟨i, h1, h2⟩ := ih h
+      exact ⟨i + 1, by simpa using h1, by rw [h2]; congr 1; omega⟩
+
+
 end KinModel.Router
